@@ -29,11 +29,12 @@ pub fn def() -> CheckDef {
         runs_quick: 600_000,
         runs_thorough: 20_000_000,
         rule: "two simulated parties with independently drawn call schedules and backend-width policies, connected by a fault-free channel: encrypt on A through every public way of driving the mode (single/multi-block forms, driver scripts, padded one-shots with Pkcs7/Iso7816/NoPadding in place, b2b and _vec, AsyncStreamCipher one-shots, byte-stream wrappers and cores with arbitrary chunking, buffered CFB, cts one-shots), decrypt on B. distinct = distinct (mode, block size, cipher, both policies, both schedules' form/size sequences, closing operation); non-trivial = message of >= 1 byte",
-        required_probes: &["async_partial_tail", "different_widths", "padded_bs255", "zero_length_message", "padded_vec", "cts", "stream_core_side", "buffered", "start_by_consuming"],
+        required_probes: &["async_partial_tail", "different_widths", "padded_bs255", "zero_length_message", "padded_vec", "cts", "stream_core_side", "buffered", "start_by_consuming", "decryptor_restarted"],
         r#gen,
         exec,
         components: "real code: all nine crates and cipher's front ends on both parties; stub: block cipher in most runs, real AES-128/Magma/Kuznyechik/BelT in the rest; channel: harness byte buffer, fault-free in this check; no reference model",
         assumptions: &["toy permutation is a bijection (self-tested)", "only reversible paddings (Pkcs7, Iso7816) and NoPadding on whole blocks are round-tripped: ambiguous paddings do not round-trip by design of the padding", "sampling, not proof"],
+        nondet_is_violation: false,
     }
 }
 
@@ -93,6 +94,7 @@ fn r#gen(rng: &mut Rng, thorough: bool) -> Scn {
             }
             s.set_num("bcore", rng.chance(1, 4) as u128);
             s.set_num("bconsume", rng.chance(1, 2) as u128);
+            s.set_num("brestart", rng.chance(1, 3) as u128);
             for who in 0..2u8 {
                 for _ in 0..1 + rng.usize(maxp) {
                     s.ops.push(Op::new("apply").who(who).n(rng.nbytes(4 * bs, bs)).via(rng.below(N_APPLY_FORMS.max(N_KS_VIA) as u64) as u8).p(rng.next() as u128));
@@ -304,6 +306,15 @@ fn exec(scn: &Scn, ctx: &mut Ctx) -> Verdict {
                     let n = if i >= 4 * pb.len().max(1) { len - pt.len() } else { n.min(len - pt.len()) };
                     i += 1;
                     ctx.sig.u(1 << 40 | (form as u64) << 16 | n.min(1000) as u64);
+                    if scn.num("brestart") == 1 && i == 2 && (start as usize + pt.len()) % bs == 0 {
+                        // crash/restart of the decrypting party at a block boundary
+                        if let Some(st) = b.core_export() {
+                            if let Ok(nb2) = make_stream(&scn.mode, bs, scn.cipher, &scn.key, &st, 1, 0) {
+                                b = nb2;
+                                ctx.probe("decryptor_restarted");
+                            }
+                        }
+                    }
                     let mut out = scn.dirt(pt.len() + 1, n);
                     if b.apply(form, &ct[pt.len()..pt.len() + n], &mut out).is_err() {
                         violation!("apply_err", "apply({}) failed on the decrypting side", n);
